@@ -364,7 +364,7 @@ def instances_for(en, ci, n):
     if not ci.cls.syntax.formal_arguments:
         return 1
     card = en.slot_cardinality(ci)
-    return max(6, min(n, 4 * card))
+    return max(6, min(n, (4 if n <= 200 else 40) * card))     # thorough: 40 passes over the largest slot
 
 
 def has_label_operand(cls):
